@@ -135,6 +135,14 @@ theorem step_at (s : Sys) (i : Nat) (t : Task) (ht : s.tasks[i]? = some t) :
   simp only [ht, lock_released_before_send, Bool.false_eq_true, if_false]
   cases t.pc <;> rfl
 
+/-- regenerated from `handle_stream`: its answers are written with `send` (feed + flush) by the handler itself -/
+theorem ack_flushed_by_handler : ackFlushedByHandler = true := by decide
+
+/-- A registration's answer waits for nobody: once the task is about to answer it can do so whoever holds the lock and
+    however full its topic's channel is (the router of a stalled topic never gets to flush anything). -/
+theorem c17_answer_waits_for_nobody (s : Sys) (i : Nat) (t : Task) (ht : s.tasks[i]? = some t) (hpc : t.pc = .answer) :
+    enabled s i = true := by simp [enabled, ht, hpc, ack_flushed_by_handler]
+
 theorem c17_other_topic_progress (s : Sys) (i : Nat) (t : Task) (ht : s.tasks[i]? = some t)
     (hpc : t.pc = .wantLock) (hfree : s.lock = none) (hroom : s.occ t.topic < s.cap) :
     ((runTask s i 5).tasks[i]?).map (·.pc) = some .done := by
@@ -150,7 +158,7 @@ theorem c17_other_topic_progress (s : Sys) (i : Nat) (t : Task) (ht : s.tasks[i]
   simp only at h2
   generalize hs2 : step s1 i = s2 at h2
   have t2 : s2.tasks[i]? = some { t with pc := .answer } := by rw [h2]; simp [setPc_getElem?, t1]
-  have e3 : enabled s2 i = true := by simp [enabled, t2]
+  have e3 : enabled s2 i = true := by simp [enabled, t2, ack_flushed_by_handler]
   have h3 := step_at s2 i _ t2
   simp only at h3
   generalize hs3 : step s2 i = s3 at h3
@@ -208,6 +216,8 @@ end Selium.Server
 #print axioms Selium.Server.step_lockInv
 #print axioms Selium.Server.c17_lock_holder_never_blocked
 #print axioms Selium.Server.step_at
+#print axioms Selium.Server.ack_flushed_by_handler
+#print axioms Selium.Server.c17_answer_waits_for_nobody
 #print axioms Selium.Server.c17_other_topic_progress
 #print axioms Selium.Server.lockInv_init
 #print axioms Selium.Server.streams_in_own_tasks
